@@ -74,7 +74,7 @@ func (cc *caseCtx) runBlock(step func() (*types.Block, error)) error {
 		want := 2 + r.Intn(4)
 		var cands []txInfo
 		used := map[common.Address]bool{}
-		guided := r.Intn(3) == 0
+		guided := r.Intn(2) == 0
 		if guided {
 			cands, hdr = cc.guidedBlock(hdr)
 		} else {
@@ -155,6 +155,7 @@ func (cc *caseCtx) checkBlock(hdr *types.Header, cands []txInfo) (tis []txInfo, 
 			continue
 		}
 		ap := applyWith(n, R, hdr, stx, func(v vm.VM) vm.VM { return v })
+		sharedConstants(cc.fail, "block (fresh VM): "+ti.Desc)
 		if ap.err != "" {
 			cc.fail("C15:validated-tx-refused-by-apply:"+ap.err, ti.Desc)
 			return nil, "", false
@@ -209,6 +210,7 @@ func (cc *caseCtx) checkBlock(hdr *types.Header, cands []txInfo) (tis []txInfo, 
 			cc.fail("C15:block-prefix-refused", fmt.Sprintf("processTxs on the first %d of %s: %v", j, descs, perr))
 			break
 		}
+		sharedConstants(cc.fail, fmt.Sprintf("block: after %d of %s", j, descs))
 		cur := dumpAll(P.State, cc.codes)
 		ti := tis[j-1]
 		// (1) one shared VM == a fresh VM per transaction
@@ -242,11 +244,28 @@ func (cc *caseCtx) checkBlock(hdr *types.Header, cands []txInfo) (tis []txInfo, 
 				}
 			}
 			c.Hit(fmt.Sprintf("block:tx:%v", rc != nil && rc.Success))
-			if ti.Tx.Type == types.TerminateContractTx || strings.HasSuffix(ti.Desc, ".addStake") {
+			if ti.Tx.Type == types.TerminateContractTx || strings.HasSuffix(ti.Desc, ".addStake") || strings.Contains(ti.Desc, "after-drain") {
 				c.Hit(fmt.Sprintf("block:%s:%v", ti.Desc, rc != nil && rc.Success))
 			}
 		} else {
 			c.Hit("block:tx:aux")
+		}
+		// (3b) a contract transaction is paid for: the signer held amount + tips + max fee when it was accepted in-block
+		// (validation.go validateTotalCost), it never gains by a transaction it pays for, and it does not end below zero
+		if isContractTx(ti.Tx.Type) {
+			pb, ok := prev.accts[ti.Sender]
+			if !ok {
+				pb = acct{Bal: new(big.Int)}
+			}
+			need := new(big.Int).Add(ti.Tx.AmountOrZero(), ti.Tx.TipsOrZero())
+			need.Add(need, ti.Tx.MaxFeeOrZero())
+			cb := cur.accts[ti.Sender]
+			switch {
+			case pb.Bal.Cmp(need) < 0:
+				cc.fail("C15:contract-tx-not-paid-for", fmt.Sprintf("block: tx %d of %s was accepted in-block although its signer held %s < amount+tips+maxFee = %s (balance afterwards %s)", j, descs, pb.Bal, need, bigs(cb.Bal)))
+			case cb.Bal != nil && cb.Bal.Sign() < 0:
+				cc.fail("C15:contract-tx-not-paid-for", fmt.Sprintf("block: tx %d of %s left its signer at %s", j, descs, cb.Bal))
+			}
 		}
 		// (4) a transaction never makes balances + contract stakes grow; a terminated contract is gone
 		if g := new(big.Int).Sub(total(cur), total(prev)); g.Sign() > 0 {
@@ -286,7 +305,7 @@ func (cc *caseCtx) guidedBlock(hdr *types.Header) ([]txInfo, *types.Header) {
 	st := n.App
 	fpg := st.State.FeePerGas()
 	nonces := map[int]uint32{}
-	mk := func(ki int, tx *types.Transaction, desc string, lowGas bool) txInfo {
+	nextNonce := func(ki int) uint32 {
 		a := w.Addrs[ki]
 		if _, ok := nonces[ki]; !ok {
 			nn := st.State.GetNonce(a)
@@ -296,16 +315,22 @@ func (cc *caseCtx) guidedBlock(hdr *types.Header) ([]txInfo, *types.Header) {
 			nonces[ki] = nn
 		}
 		nonces[ki]++
-		tx.AccountNonce, tx.Epoch = nonces[ki], st.State.Epoch()
-		tx.MaxFee = new(big.Int).Mul(fpg, big.NewInt(400000))
-		if lowGas {
-			tx.MaxFee = new(big.Int).Mul(fpg, big.NewInt(int64(2500+r.Intn(900))))
-		}
+		return nonces[ki]
+	}
+	sign := func(ki int, tx *types.Transaction, nonce uint32) *types.Transaction {
+		tx.AccountNonce, tx.Epoch = nonce, st.State.Epoch()
 		stx, err := types.SignTx(tx, w.Keys[ki])
 		if err != nil {
 			panic(err)
 		}
-		return txInfo{Tx: stx, Sender: a, Desc: desc}
+		return stx
+	}
+	mk := func(ki int, tx *types.Transaction, desc string, lowGas bool) txInfo {
+		tx.MaxFee = new(big.Int).Mul(fpg, big.NewInt(400000))
+		if lowGas {
+			tx.MaxFee = new(big.Int).Mul(fpg, big.NewInt(int64(2500+r.Intn(900))))
+		}
+		return txInfo{Tx: sign(ki, tx, nextNonce(ki)), Sender: w.Addrs[ki], Desc: desc}
 	}
 	users := r.Perm(len(w.Keys) - 1)
 	u := func(i int) int { return 1 + users[i%len(users)] }
@@ -320,7 +345,120 @@ func (cc *caseCtx) guidedBlock(hdr *types.Header) ([]txInfo, *types.Header) {
 		p, _ := attachments.CreateCallContractAttachment(method, args...).ToBytes()
 		return mk(ki, &types.Transaction{Type: types.CallContractTx, To: &x, Amount: amt, Payload: p}, "call-"+what+"."+method, low)
 	}
-	switch k := r.Intn(5); {
+	termTo := func(ki int, x, dest common.Address, what string) txInfo {
+		p, _ := attachments.CreateTerminateContractAttachment(dest.Bytes()).ToBytes()
+		return mk(ki, &types.Transaction{Type: types.TerminateContractTx, To: &x, Payload: p}, "terminate-"+what, false)
+	}
+	nsz := st.ValidatorsCache.NetworkSize()
+	deployLock := func(ki int) (txInfo, common.Address, string) {
+		if r.Intn(2) == 0 {
+			p, _ := attachments.CreateDeployContractAttachment(embedded.MultisigContract, nil, nil, []byte{1}, []byte{1}).ToBytes()
+			dep := mk(ki, &types.Transaction{Type: types.DeployContractTx, Amount: new(big.Int).Set(minStake), Payload: p}, "deploy-multisig", false)
+			return dep, env.ComputeContractAddr(dep.Tx, dep.Sender), "multisig"
+		}
+		p, _ := attachments.CreateDeployContractAttachment(embedded.TimeLockContract, nil, nil, u64(1)).ToBytes()
+		dep := mk(ki, &types.Transaction{Type: types.DeployContractTx, Amount: new(big.Int).Set(minStake), Payload: p}, "deploy-timelock", false)
+		return dep, env.ComputeContractAddr(dep.Tx, dep.Sender), "timelock"
+	}
+	switch k := r.Intn(9); {
+	case k == 5 || k == 6:
+		// a lock holding dust (0 < balance <= 100 * fee per gas: Terminate burns it with BurnAll) terminated with an
+		// aliasing destination of the stake refund: the contract itself, the signer, the zero address, a bystander
+		owner := u(0)
+		dep, x, what := deployLock(owner)
+		dust := new(big.Int).Add(big.NewInt(1), new(big.Int).Rand(r, new(big.Int).Mul(fpg, big.NewInt(100))))
+		if r.Intn(5) == 0 {
+			dust = new(big.Int).Mul(fpg, big.NewInt(100)) // exactly the threshold
+		}
+		out = append(out, dep, mk(u(1), &types.Transaction{Type: types.SendTx, To: &x, Amount: dust}, "fund-dust-"+what, false))
+		dest := x
+		switch r.Intn(6) {
+		case 0:
+			dest = w.Addrs[owner]
+		case 1:
+			dest = common.Address{}
+		case 2:
+			dest = w.Addrs[u(3)]
+		}
+		t := termTo(owner, x, dest, what)
+		switch dest {
+		case x:
+			t.Desc += "(to-itself,dust)"
+		case w.Addrs[owner]:
+			t.Desc += "(to-signer,dust)"
+		default:
+			t.Desc += "(dust)"
+		}
+		out = append(out, t)
+		return out, hdr
+	case k == 7 || k == 8:
+		// the signer drains its account (a transfer whose max fee is exactly its fee) and, later in the same block, sends a
+		// contract transaction whose declared max fee it can no longer afford: in-block validation has to refuse it
+		// (validateTotalCost reserves amount + tips + maxFee for contract transactions)
+		a := u(0)
+		addr := w.Addrs[a]
+		bal := new(big.Int).Set(st.State.GetBalance(addr))
+		var x common.Address
+		what := "timelock"
+		kind := r.Intn(3) // 0 terminate, 1 call, 2 deploy
+		if kind != 2 {
+			S, err := n.App.ForCheck(n.Chain.Head.Height())
+			if err != nil {
+				return nil, hdr
+			}
+			var dep txInfo
+			dep, x, what = deployLock(a)
+			if ap := applyWith(n, S, hdr, dep.Tx, func(v vm.VM) vm.VM { return v }); ap.err != "" || ap.rc == nil || !ap.rc.Success {
+				return nil, hdr
+			}
+			bal = new(big.Int).Set(S.State.GetBalance(addr))
+			out = append(out, dep)
+		}
+		nD := nextNonce(a)
+		n2 := nextNonce(a)
+		third := w.Addrs[u(3)]
+		var tx2 *types.Transaction
+		desc2 := ""
+		amt2 := new(big.Int)
+		switch kind {
+		case 0:
+			p, _ := attachments.CreateTerminateContractAttachment(third.Bytes()).ToBytes()
+			tx2, desc2 = &types.Transaction{Type: types.TerminateContractTx, To: &x, Payload: p}, "terminate-"+what+"(after-drain)"
+		case 1:
+			method, args := "transfer", [][]byte{third.Bytes(), big.NewInt(0).Bytes()}
+			if what == "multisig" {
+				method, args = "add", [][]byte{third.Bytes()}
+			}
+			p, _ := attachments.CreateCallContractAttachment(method, args...).ToBytes()
+			tx2, desc2 = &types.Transaction{Type: types.CallContractTx, To: &x, Payload: p}, "call-"+what+"."+method+"(after-drain)"
+		default:
+			p, _ := attachments.CreateDeployContractAttachment(embedded.TimeLockContract, nil, nil, u64(1)).ToBytes()
+			amt2 = new(big.Int).Set(minStake)
+			tx2, desc2 = &types.Transaction{Type: types.DeployContractTx, Amount: amt2, Payload: p}, "deploy-timelock(after-drain)"
+		}
+		tx2.MaxFee = new(big.Int).Mul(fpg, big.NewInt(400000))
+		stx2 := sign(a, tx2, n2)
+		reserve := new(big.Int).Add(fee.CalculateFee(nsz, fpg, stx2), amt2)
+		reserve.Add(reserve, new(big.Int).Mul(fpg, big.NewInt(int64([]int{0, 40, 400}[r.Intn(3)]))))
+		// the draining transfer: amount = balance - fee - reserve, maxFee = fee (the size depends on both: fixed point)
+		f := new(big.Int).Mul(fpg, big.NewInt(2000))
+		var drain *types.Transaction
+		for it := 0; it < 6; it++ {
+			amt := new(big.Int).Sub(bal, f)
+			amt.Sub(amt, reserve)
+			if amt.Sign() <= 0 {
+				return nil, hdr
+			}
+			drain = sign(a, &types.Transaction{Type: types.SendTx, To: &third, Amount: amt, MaxFee: new(big.Int).Set(f)}, nD)
+			nf := fee.CalculateFee(nsz, fpg, drain)
+			if nf.Cmp(f) == 0 {
+				break
+			}
+			f = nf
+		}
+		out = append(out, txInfo{Tx: drain, Sender: addr, Desc: "drain-transfer"}, txInfo{Tx: stx2, Sender: addr, Desc: desc2})
+		return out, hdr
+
 	case k <= 1: // a voting deployed, staked and terminated within one block
 		args := [][]byte{[]byte("fact"), u64(uint64(hdr.Time() - 100)), u64(30), u64(100), {60}, {1}, u64(100), big.NewInt(100).Bytes(), {0}}
 		p, _ := attachments.CreateDeployContractAttachment(embedded.OracleVotingContract, nil, nil, args...).ToBytes()
